@@ -66,6 +66,29 @@ ChunkInvariance(N) ==
   \A form \in Forms : \A n \in 0..N : \A c \in (1..(N + 2)) \cup {NoneV} :
      Result(form, n, c) = RowNums(0, NOf(form, n))
 
+(***************************************************************************)
+(* Which rows decide the stored element type when no dtype is given.       *)
+(* Every source row has a width (1 = fits the narrow type of its kind,     *)
+(* 2 = needs the wide one); converting rows together yields the widest     *)
+(* (NumPy promotion).  A sequence is ONE array-like: np.asarray(x) looks   *)
+(* at all of it, whatever chunklen says.  An iterator of chunks is cast to *)
+(* its first chunk's type (C01).  "firstchunk" is the algorithm of the     *)
+(* pinned tree for sequences (each slice converted on its own, the first   *)
+(* one fixing the type): TLC must find it chunklen-dependent.              *)
+(***************************************************************************)
+MaxW(ws, rows) == IF \E k \in 1..Len(rows) : ws[rows[k] + 1] = 2 THEN 2 ELSE 1
+DecidingRows(form, n, c, typing) ==
+  IF form = "generator" \/ (form \in {"list", "tuple"} /\ typing = "firstchunk")
+  THEN Chunks(form, n, c)[1] ELSE RowNums(0, n)
+StoredWidth(form, ws, c, typing) == MaxW(ws, DecidingRows(form, Len(ws), c, typing))
+TypeInvariance(N, typing) ==
+  \A form \in {"list", "tuple"} : \A n \in 1..N : \A ws \in [1..n -> 1..2] : \A c \in (1..(N + 2)) \cup {NoneV} :
+     StoredWidth(form, ws, c, typing) = MaxW(ws, RowNums(0, n))
+TypeRows(N) == {[form |-> f, ws |-> ws, c |-> c, decide |-> DecidingRows(f, Len(ws), c, "whole"),
+                 width |-> StoredWidth(f, ws, c, "whole")] :
+                   f \in {"list", "tuple", "generator"}, ws \in UNION {[1..n -> 1..2] : n \in 1..N},
+                   c \in (1..(N + 1)) \cup {NoneV}}
+
 (* the element-type gate comes before anything is created *)
 Outcome(supported) == IF supported THEN [out |-> "ok", created |-> TRUE]
                       ELSE [out |-> "TypeError", created |-> FALSE]
